@@ -328,4 +328,4 @@ Definition run_verify_tree (a : verify_argv) (args : list cnode) : verify_result
   run_verify_argv (lookup (file_system args)) (with_files a args).
 
 (* EXTRACT: equivalence verify_argv verify_command clap_parse verify_result run_verify run_verify_argv
-   run_verify_tree dir_state cnode path_push *)
+   run_verify_tree dir_state cnode path_push with_files lookup file_system *)
